@@ -1,7 +1,7 @@
 INIT Init
 NEXT Next
 CONSTANT MaxDev = 2
-CONSTANT Bases = "full"
+CONSTANT Bases = "mid"
 INVARIANT RefusesInv
 INVARIANT ThreeFieldsInv
 INVARIANT SoundInv
